@@ -341,6 +341,13 @@ func run(r *mon.Run) {
 		edit("url=case", func(e *signedexchange.Exchange) { e.RequestURI = strings.Replace(e.RequestURI, "/p", "/P", 1) })
 		edit("url=host", func(e *signedexchange.Exchange) { e.RequestURI = strings.Replace(e.RequestURI, "example.com", "example.org", 1) })
 		edit("url=trailing-dot-host", func(e *signedexchange.Exchange) { e.RequestURI = strings.Replace(e.RequestURI, "example.com/", "example.com./", 1) })
+		// spellings that a URL library treats as the same URL: the format signs the bytes, not the parsed URL
+		edit("url=scheme-case", func(e *signedexchange.Exchange) { e.RequestURI = "Https" + strings.TrimPrefix(e.RequestURI, "https") })
+		edit("url=empty-fragment", func(e *signedexchange.Exchange) { e.RequestURI += "#" })
+		edit("url=empty-query", func(e *signedexchange.Exchange) { e.RequestURI += "?" })
+		edit("url=escaped-letter", func(e *signedexchange.Exchange) { e.RequestURI = strings.Replace(e.RequestURI, "/p", "/%70", 1) })
+		edit("url=host-case", func(e *signedexchange.Exchange) { e.RequestURI = strings.Replace(e.RequestURI, "example.com", "Example.com", 1) })
+		edit("url=dot-segment", func(e *signedexchange.Exchange) { e.RequestURI = strings.Replace(e.RequestURI, "example.com/", "example.com/./", 1) })
 		edit("url=port", func(e *signedexchange.Exchange) { e.RequestURI = strings.Replace(e.RequestURI, "example.com/", "example.com:443/", 1) })
 		edit("status=+1", func(e *signedexchange.Exchange) { e.ResponseStatus++ })
 		edit("status=404", func(e *signedexchange.Exchange) { e.ResponseStatus = 404 })
